@@ -546,6 +546,9 @@ fn branch_state_programs() -> Vec<(String, Vec<f64>, String)> {
     // the then-branch holds more state than the else-branch (the larger cursor move must reach the epilogue)
     v.push(("fn cnt(){ self + 1.0 }\nfn gate(c){\n  if (c) { cnt() } else { 0.0 }\n}\nfn dsp(){\n  gate(1.0)\n}\n".to_string(), vec![1.0, 2.0, 3.0, 4.0], "stateful then-branch, stateless else-branch, then path".to_string()));
     v.push(("fn cnt(){ self + 1.0 }\nfn gate(c){\n  if (c) { cnt() + cnt() } else { cnt() }\n}\nfn dsp(){\n  let a = gate(0.0)\n  let b = cnt()\n  a + b*100.0\n}\n".to_string(), vec![101.0, 202.0, 303.0, 404.0], "then-branch larger than else-branch, else path, a counter behind the call".to_string()));
+    // stateful global initialisers (finding F26): their cells live in the global storage, which execute_main has to size
+    v.push(("let g = mem(1.0)\nfn dsp(){\n  g + 5.0\n}\n".to_string(), vec![5.0, 5.0, 5.0, 5.0], "mem in a global initialiser".to_string()));
+    v.push(("let g = delay(64.0, 3.0, 1.0)\nfn dsp(){\n  g + 2.0\n}\n".to_string(), vec![2.0, 2.0, 2.0, 2.0], "delay with a 66-word cell in a global initialiser".to_string()));
     // `self` is an aggregate with a sum-typed member (tag + payload words), another cell behind it: the published size of the
     // feed cell must be the run-time size of the value
     v.push(("type Opt = Nothing | Just(float)\nfn hold(x)->(float,Opt){\n  let (n, prev) = self\n  let p = match prev {\n    Nothing => 0.0,\n    Just(v) => v\n  }\n  (n + p, Just(x))\n}\nfn dsp(){\n  let (a,_o) = hold(3.0)\n  let m = mem(a)\n  a + m\n}\n".to_string(), vec![0.0, 3.0, 9.0, 15.0], "tuple self with a sum-typed member in front of a mem".to_string()));
